@@ -74,11 +74,12 @@ def param_deps(fn: ast.AST, e: ast.AST, params: Set[str]) -> Set[str]:
         if isinstance(n, (ast.Assign, ast.AnnAssign)) and getattr(n, "value", None) is not None:
             for t in (n.targets if isinstance(n, ast.Assign) else [n.target]):
                 for nm in ast.walk(t):
-                    if isinstance(nm, ast.Name):
+                    # names that are BOUND by the statement (`c[key] = v` binds neither c nor key)
+                    if isinstance(nm, ast.Name) and isinstance(nm.ctx, ast.Store):
                         assigns.setdefault(nm.id, []).append(n.value)
         elif isinstance(n, (ast.For, ast.comprehension)):
             for nm in ast.walk(n.target):
-                if isinstance(nm, ast.Name):
+                if isinstance(nm, ast.Name) and isinstance(nm.ctx, ast.Store):
                     assigns.setdefault(nm.id, []).append(n.iter)
     seen: Set[str] = set()
     out: Set[str] = set()
